@@ -1,7 +1,7 @@
 (* C16 — property theorems only (each closed by [exact]) + Print Assumptions. *)
 From Coq Require Import ZArith List Bool.
 From Verif Require Import Common.Bytes Codec.Json Codec.StructCodec Codec.StructProofs
-  Codec.MappingTables Codec.MappingProofs.
+  Codec.MappingTables Codec.MappingProofs Codec.FuelProofs.
 Import ListNotations.
 Local Open Scope Z_scope.
 
@@ -65,6 +65,13 @@ Theorem C16_struct_level_roundtrip :
     obind (marshal_struct mapping_env fuel sd r) (unmarshal_struct mapping_env mapping_strict fuel sd) = Some r.
 Proof. exact struct_level_roundtrip. Qed.
 Print Assumptions C16_struct_level_roundtrip.
+
+(* fuel only bounds nesting depth: the domain of the theorems grows with it *)
+Theorem C16_wf_fuel_monotone :
+  forall (E : env) fuel fuel' k v,
+    (fuel <= fuel')%nat -> wf_value E fuel k v = true -> wf_value E fuel' k v = true.
+Proof. exact wf_value_mono. Qed.
+Print Assumptions C16_wf_fuel_monotone.
 
 (* the validity hypothesis "CustomAnalysis is not nil" cannot be dropped *)
 Theorem C16_mapping_roundtrip_nil_analysis_refuted :
